@@ -136,7 +136,7 @@ struct Pending {
 
 pub fn run(args: &Args, report: &mut Report) {
     let mut rng = Rng::new(args.seed);
-    let (n_worlds, n_types, n_lists, n_pairs) = if args.thorough() { (400, 120, 400, 1500) } else { (40, 60, 120, 400) };
+    let (n_worlds, n_types, n_lists, n_pairs) = if args.thorough() { (400, 120, 400, 1500) } else { (30, 60, 120, 400) };
     report.rule = "worlds of generated class/alias declarations (acyclic inheritance, 2-8 classes, 0-4 aliases); per world a pool of types obtained by analysing generated `---@type` annotations (depth <= 3, with and without protective parentheses) plus inferred literal types; union cases = random lists of 0-6 pool types (batch vs fold); check cases = random pairs plus the law instances (t,t), (union, member), (ancestor, descendant), (any/unknown, t). A case is non-trivial when some type involved is not a basic kind; distinct by (declarations, serialised inputs)".into();
     let mut requests: Vec<String> = Vec::new();
     let mut pending: Vec<Pending> = Vec::new();
